@@ -16,6 +16,14 @@ Theorem C03_basic_round_trip_same_impedance :
 Proof. exact round_trip_same_impedance. Qed.
 Print Assumptions C03_basic_round_trip_same_impedance.
 
+(* the implicit outer series has the impedance of the series of its items *)
+Theorem C03_implicit_series_same_impedance :
+  forall (reg : registry) (leaf : nat -> ez C) pf l l',
+  List.Forall2 (fun x x' => pnode reg pf x = Some x') l l' ->
+  cspec (cct (match l' with [x'] => top x' | _ => Ser l' end)) leaf = cspec (CSer (map ct l)) leaf.
+Proof. exact implicit_series_same_impedance. Qed.
+Print Assumptions C03_implicit_series_same_impedance.
+
 (* parse results contain no empty parallel connection (the side condition of merging parallel connections) *)
 Theorem C03_parse_results_well_formed :
   forall reg pf c n', pconn reg pf c = Some n' -> wfr n'.
